@@ -303,9 +303,9 @@ func (ufs *Ufs) Walk(req *SrvReq) {
 	fid := req.Fid.Aux.(*ufsFid)
 	tc := req.Tc
 
-	err := fid.stat()
-	if err != nil {
-		req.RespondError(err)
+	// any number of walks may start from one fid at the same time: examine it without writing to it
+	if _, e := os.Lstat(fid.path); e != nil {
+		req.RespondError(toError(e))
 		return
 	}
 
